@@ -72,6 +72,16 @@ let show_can brief = function
   | CV v -> "V " ^ hex_of_n v
   | COob -> "OOB" | CUnmod -> "UNMOD"
 
+(* ---- ACF-VSS formatting ---- *)
+let nat_of_int i = let rec go k = if k = 0 then O else S (go (k - 1)) in go i
+let elems_of_hex w s =
+  if s = "." then [] else List.init (SS.length s / (2 * w)) (fun i -> n_of_hex (SS.sub s (2 * w * i) (2 * w)))
+let hex_fixed w v = let h = hex_of_n v in let l = SS.length h in if l >= 2 * w then SS.sub h (l - 2 * w) (2 * w) else SS.make (2 * w - l) '0' ^ h
+let hex_of_elems w es = if es = [] then "." else SS.concat "" (List.map (hex_fixed w) es)
+let show_out f = function Ok x -> f x | OOB _ -> "OOB" | Unmodelled -> "UNMOD"
+let wbytes_of = function W16 -> 2 | W32 -> 4 | W64 -> 8
+let elem_w dt = match vss_kind dt with KE w -> wbytes_of w | _ -> 0
+
 let kind_of = function
   | "Bswap" -> KBswap | "CpuToLe" -> KCpuToLe | "CpuToBe" -> KCpuToBe
   | "LeToCpu" -> KLeToCpu | "BeToCpu" -> KBeToCpu | _ -> failwith "kind"
@@ -155,6 +165,67 @@ let handle (ext : SS.t list -> SS.t option) line =
   | ["CF"; k; b; plen] -> show_can (k = "brief") (m_can_finalize (k = "brief") (buf_of_hex b) (n_of_hex plen))
   | ["CP"; b; pl; plen] -> show_can false (m_can_set_payload (buf_of_hex b) (buf_of_hex pl) (n_of_hex plen))
   | ["CL"; b] -> show_can false (m_can_payload_length (buf_of_hex b))
+  (* ACF-VSS *)
+  | ["VP"; b; n] -> show (m_vss_pad (buf_of_hex b) (n_of_hex n))
+  | ["SVP"; b; n] -> show (s_vss_pad (buf_of_hex b) (n_of_hex n))
+  | ["VCL"; b] -> show (m_vss_calc (buf_of_hex b))
+  | ["SVCL"; b] -> show (s_vss_calc (buf_of_hex b))
+  | ["VSP"; b; "static"; id] -> show (m_vss_set_path (buf_of_hex b) (PStatic (n_of_hex id)))
+  | "VSP" :: b :: "interop" :: len :: rest ->
+      show (m_vss_set_path (buf_of_hex b) (PInterop (n_of_hex len, buf_of_hex (match rest with [h] -> h | _ -> "."))))
+  | ["SVSP"; b; "static"; id] -> show (s_vss_set_path (buf_of_hex b) (RStatic (n_of_hex id)))
+  | "SVSP" :: b :: "interop" :: _ :: rest -> show (s_vss_set_path (buf_of_hex b) (RInterop (buf_of_hex (match rest with [h] -> h | _ -> "."))))
+  | ["VGP"; b; cap] ->
+      show_out (function GStatic id -> "P static " ^ hex_of_n id
+                       | GInterop (l, w) -> "P interop " ^ hex_of_n l ^ " " ^ hex_of_buf w
+                       | GPathNone -> "P none") (m_vss_get_path (buf_of_hex b) (n_of_hex cap))
+  | ["SVGP"; b] ->
+      (match s_vss_get_path (buf_of_hex b) with
+       | Some (RStatic id) -> "P static " ^ hex_of_n id
+       | Some (RInterop p) -> "P interop " ^ hex_of_n (n_of_int (List.length p)) ^ " " ^ hex_of_buf p
+       | None -> "P none")
+  | ["VSD"; b; "scalar"; v] -> show (m_vss_set_data (buf_of_hex b) (DScalar (n_of_hex v)))
+  | "VSD" :: b :: "bytes" :: len :: rest -> show (m_vss_set_data (buf_of_hex b) (DBytes (n_of_hex len, buf_of_hex (match rest with [h] -> h | _ -> "."))))
+  | "VSD" :: b :: "elems" :: len :: w :: rest ->
+      show (m_vss_set_data (buf_of_hex b) (DElems (n_of_hex len, elems_of_hex (int_of_string w) (match rest with [h] -> h | _ -> "."))))
+  | ["SVSD"; b; "scalar"; w; v] -> show (s_vss_set_data (buf_of_hex b) (RScalar (nat_of_int (int_of_string w), n_of_hex v)))
+  | "SVSD" :: b :: "bytes" :: rest -> show (s_vss_set_data (buf_of_hex b) (RBytes (buf_of_hex (match rest with [h] -> h | _ -> "."))))
+  | "SVSD" :: b :: "elems" :: w :: rest ->
+      show (s_vss_set_data (buf_of_hex b) (RElems (nat_of_int (int_of_string w), elems_of_hex (int_of_string w) (match rest with [h] -> h | _ -> "."))))
+  | ["VGD"; b; dst] ->
+      let bb = buf_of_hex b in
+      let ew = (match m_vss_get_data bb None with _ -> ()) in ignore ew;
+      show_out (function
+        | GScalar v -> "D scalar " ^ hex_of_n v
+        | GBytes (l, w) -> "D bytes " ^ hex_of_n l ^ " " ^ (match w with None -> "-" | Some x -> hex_of_buf x)
+        | GElems (l, w) ->
+            (* element width from the header, for printing only *)
+            let dt = (match s_vss_get_data bb with Some (RElems (wn, _)) -> (let rec cnt = function O -> 0 | S k -> 1 + cnt k in cnt wn) | _ -> 1) in
+            "D elems " ^ hex_of_n l ^ " " ^ (match w with None -> "-" | Some x -> hex_of_elems dt x)
+        | GDataNone -> "D none") (m_vss_get_data bb (if dst = "-" then None else Some (n_of_hex dst)))
+  | ["SVGD"; b] ->
+      (match s_vss_get_data (buf_of_hex b) with
+       | Some (RScalar (_, v)) -> "D scalar " ^ hex_of_n v
+       | Some (RBytes x) -> "D bytes " ^ hex_of_n (n_of_int (List.length x)) ^ " " ^ hex_of_buf x
+       | Some (RElems (wn, es)) -> let w = (let rec cnt = function O -> 0 | S k -> 1 + cnt k in cnt wn) in
+                                   "D elems " ^ hex_of_n (n_of_int (w * List.length es)) ^ " " ^ hex_of_elems w es
+       | Some (RStrings _) -> "D strings"
+       | None -> "D none")
+  | ["VAP"; num; out; strs; _] ->
+      let ss = if strs = "-" then [] else List.map (fun t -> match SS.split_on_char ':' t with
+                 | [l; h] -> (n_of_hex l, buf_of_hex h) | _ -> failwith "str") (SS.split_on_char ',' strs) in
+      show_out (fun (dl, o) -> "A " ^ hex_of_n dl ^ " " ^ hex_of_buf o) (m_strs_pack ss (n_of_hex num) (buf_of_hex out))
+  | ["SVAP"; strs] ->
+      let ss = if strs = "-" then [] else List.map buf_of_hex (SS.split_on_char ',' strs) in
+      let (dl, o) = s_strs_pack ss in "A " ^ hex_of_n dl ^ " " ^ hex_of_buf o
+  | ["VAC"; dl; data] -> show_out (fun v -> "V " ^ hex_of_n v) (m_strs_count (n_of_hex dl) (buf_of_hex data))
+  | ["VAU"; dl; data; num; dsts] ->
+      let ds = if dsts = "." then [] else List.map (fun t -> if t = "-" then None else Some (n_of_hex t)) (SS.split_on_char ',' dsts) in
+      show_out (fun l -> "U" ^ SS.concat "" (List.map (fun (n, w) -> " " ^ hex_of_n n ^ ":" ^ (match w with None -> "-" | Some x -> hex_of_buf x)) l))
+        (m_strs_unpack (n_of_hex dl) (buf_of_hex data) ds (n_of_hex num))
+  | ["SVAU"; dl; data] ->
+      let l = s_strs_unpack (n_of_hex dl) (buf_of_hex data) in
+      "U" ^ SS.concat "" (List.map (fun x -> " " ^ hex_of_n (n_of_int (List.length x)) ^ ":" ^ hex_of_buf x) l)
   | "Q" :: bufs :: ops -> history false bufs ops
   | "SQ" :: bufs :: ops -> history true bufs ops
   | ["H"; br; k; w; x] -> show (m_helper (br = "BE") (kind_of k) (width_of w) (n_of_hex x))
